@@ -27,6 +27,40 @@ def noalloc_programs(tier, seed):
     return progs
 
 
+def wide_programs(first_id):
+    """Wide / deep sequential programs with allocation-free user code (two-digit and >32 branch counts)."""
+    fns, entries = [], []
+    pid = first_id
+    for kind in ("join", "try_join"):
+        tr = kind.startswith("try_")
+        for nb, ns in ((2, 3), (12, 2), (24, 3), (33, 2), (40, 3), (33, 1)):
+            branches, total = [], 0
+            for b in range(nb):
+                steps = ns if b % 3 != 1 else max(1, ns - 1)
+                t = "Some(%du64)" % (b + 1)
+                v = b + 1
+                for k in range(steps):
+                    t += " %s|> |v| v + %du64" % ("~" if k > 0 else "", k + 1)
+                    v += k + 1
+                branches.append(t)
+                total += v
+            params = ", ".join("a%d" % i for i in range(nb))
+            if tr:
+                h = "map => |%s| %s" % (params, " + ".join("a%d" % i for i in range(nb)))
+                rty, exp = "Option<u64>", "Some(%d)" % total
+            else:
+                h = "then => |%s| %s" % (", ".join("a%d: Option<u64>" % i for i in range(nb)), " + ".join("a%d.unwrap()" % i for i in range(nb)))
+                rty, exp = "u64", "%d" % total
+            body = ", ".join(branches) + ", " + h
+            m = "pub fn m_%d() -> String { let (__res, __n) = vrt::alloc::measure(|| { let __res: %s = %s! { %s }; __res }); format!(\"{:?}|allocs={}\", __res, __n) }" % (pid, rty, kind, body)
+            r = "pub fn r_%d() -> String { String::from(%s) }" % (pid, rs(exp + "|allocs=0"))
+            fns.append(m + "\n" + r)
+            entries.append("Twin { id: %d, kind: %s, m: m_%d, r: r_%d, srcs: &[], branches: &[(1, 2)], tags: %s, text: %s, reference: %s, max_id: 4 }" % (
+                pid, rs(kind), pid, pid, rs("noalloc,wide,wide:%dx%d" % (nb, ns)), rs(body[:300] + " ..."), rs(exp)))
+            pid += 1
+    return fns, entries
+
+
 def bounds_programs(first_id):
     """Hand-written templates instantiated under the macros they must compile with.
     Each entry: (kind, prelude, macro body, result expression after the macro, expected Debug string, tag)."""
@@ -51,6 +85,11 @@ def bounds_programs(first_id):
         else:
             T.append((kind, "let data = [5u32];", "Some(1u32), Some(2u32), then => |a: Option<u32>, b: Option<u32>| a.unwrap() + b.unwrap() + data[0]", "__r", "8", "borrowing_handler"))
             T.append((kind, "let mut log = [0u32; 2];", "let first = Some(3u32) |> |v| v + 1, Some(1u32) ~|> { let f = first.unwrap(); let l = &mut log; move |v| { l[0] = f; v + f } }", "(__r, log[0])", "((Some(4), Some(5)), 4)", "let_name_and_mut_capture"))
+        # a fold / try_fold seed written as a block: moved into the fold, never cloned (move-only seed compiles,
+        # a Clone-counting seed is cloned 0 times)
+        T.append((kind, "let data = [1u32, 2, 3]; struct Acc(Tok, u32);", "data.iter() ^@ { Acc(Tok::new(), 10) }, |a: Acc, v: &u32| Acc(a.0, a.1 + *v) -> |a: Acc| Some(a.1), Some(1u8)", "__r", tup("16", "1"), "move_only_fold_seed"))
+        T.append((kind, "let data = [1u32, 2, 3]; let mut hits = [0u32; 1]; let h = &mut hits;", "data.iter() ?^@ { (h, 5u32) }, |a: (&mut [u32; 1], u32), v: &u32| { a.0[0] += 1; Some((a.0, a.1 + *v)) } |> |a| a.1, Some(1u8)", "(__r, hits[0])", "(%s, 3)" % tup("11", "1"), "mut_borrowing_try_fold_seed"))
+        T.append((kind, "let data = [1u32, 2, 3]; vrt::zoo::reset_clones();", "data.iter() ^@ { CountClone(7) }, |a: CountClone, v: &u32| CountClone(a.0 + *v) -> |a: CountClone| Some(a.0), data.iter() ?^@ { CountClone(1) }, |a: CountClone, v: &u32| Some(CountClone(a.0 + *v)) |> |a| a.0", "(__r, vrt::zoo::clones())", "(%s, 0)" % tup("13", "7"), "clone_counting_fold_seed"))
     # Rc result needs care: value after both branches = 2, second branch reads 2 (sequential) then +1
     T = [t for t in T if t[4] is not None]
     for kind in ("join", "try_join"):
@@ -136,6 +175,11 @@ opt-level = 2
         if 100000 + i in skip:
             continue
         items.append((100000 + i, f, e))
+    wf, we = wide_programs(200000)
+    for i, (f, e) in enumerate(zip(wf, we)):
+        if 200000 + i in skip:
+            continue
+        items.append((200000 + i, f, e))
     shards = [[] for _ in range(nshards)]
     for i, it in enumerate(items):
         shards[i % nshards].append(it)
